@@ -117,6 +117,21 @@ fn run_ops<C: Context>(c: &mut C, prog: &Program, t: Tid, n: u32, ops: &[Op], st
         with_sim(|s| { s.op_stack.pop(); s.log.push(Ev::OpEnd { t, n, pos, obs, ok }); });
         st.acc = fold(st.acc, obs);
       }
+      Op::Switch { res, cases } => {
+        let key = prog.resources[*res];
+        let pos = st.pos;
+        st.pos += 1;
+        let frame = OpFrame { t, n, pos, op: OpK::Read, target: Target::Res(key) };
+        with_sim(|s| { s.op_stack.push(frame); s.log.push(Ev::OpStart { t, n, pos, op: OpK::Read, target: frame.target }); });
+        let r = read_res(c, key, RChk { kind: RK::Exact, tag: 0 });
+        let (obs, ok, val) = match r { Ok(v) => (RK::Exact.observe(v), true, v), Err(e) => (1000 + e.0 as Val, false, None) };
+        with_sim(|s| { s.op_stack.pop(); s.log.push(Ev::OpEnd { t, n, pos, obs, ok }); });
+        st.acc = fold(st.acc, obs);
+        if !cases.is_empty() {
+          let case = val.map(|v| v.rem_euclid(cases.len() as Val) as usize).unwrap_or(0);
+          run_ops(c, prog, t, n, &cases[case], st);
+        }
+      }
       Op::Require { task, chk } => {
         let key = prog.tasks[*task].key;
         let pos = st.pos;
